@@ -67,6 +67,9 @@ def build_harness(ctx, cmd, race=False):
     args = ["go", "build", "-tags", "verif", "-o", out]
     if race:
         args.append("-race")
+    if os.environ.get("VERIF_COVERDIR"):
+        # opt-in measurement (tools/coverage.sh): which statements of the library the checks execute
+        args += ["-cover", "-coverpkg=github.com/verily-src/fhirpath-go/..."]
     args.append("./cmd/" + cmd)
     env = dict(GOENV)
     if REPO != "/repo":
@@ -86,6 +89,8 @@ def run_harness(ctx, binary, args, timeout=3600, env=None):
     e = dict(GOENV, VERIF_SEED=str(ctx.seed), VERIF_TIER=ctx.tier, VERIF_SPEC=SPEC)
     if env:
         e.update(env)
+    if os.environ.get("VERIF_COVERDIR"):
+        e["GOCOVERDIR"] = os.environ["VERIF_COVERDIR"]
     t = time.time()
     try:
         p = subprocess.run([binary] + args, cwd=ctx.work, env=e, capture_output=True, text=True, timeout=timeout)
